@@ -4,7 +4,6 @@
 #include "nmtools/array/functional/combinator.hpp"
 namespace fn = nmtools::functional;
 namespace cb = nmtools::combinator;
-namespace fun = nmtools::view::fun;
 namespace c14 {
 
 template <typename T> const void* addr_of(const T& x) {
